@@ -260,7 +260,11 @@ where
     /// Initialize the enhanced tournament tree with O(log k) structure
     pub fn initialize(&mut self) -> Result<()> {
         if self.ways.is_empty() {
-            return Err(ZiporaError::invalid_data("No input ways provided"));
+            // Merging zero runs is well defined: the result is empty
+            self.num_ways = 0;
+            self.tree.clear();
+            self.winner = 0;
+            return Ok(());
         }
 
         self.num_ways = self.ways.len();
